@@ -113,6 +113,8 @@ STYLES = [
     ('cell', 'always', 'states_last'),        # node list: forks before cells, state elements at the very end (every deletion displaces one)
     ('fork', 'chain', 'forks_first'),         # node list: all forks first, then the cells in creation order
     ('cell', 'open_nets', 'io_first'),        # a signal nobody reads still has its line and a named fork without fan-out (an unused net)
+    ('cell_shared', 'always', 'io_first'),    # as the parsers do: the fork of a signal carries the same name as the cell driving it
+    ('cell_shared', 'chain', 'gates_first'),
 ]
 
 
@@ -136,6 +138,8 @@ class Built:
 def build(nl, style=STYLES[0], io_order='in_out'):
     from kyupy.circuit import Circuit, Node, Line
     ports, forks, order = style
+    shared = ports == 'cell_shared'       # cells and forks have separate name spaces: input cell 'i0' and fork 'i0', gate 'g0' and fork 'g0'
+    if shared: ports = 'cell'
     c = Circuit('nl')
     b = Built()
     b.circuit = c
@@ -184,6 +188,8 @@ def build(nl, style=STYLES[0], io_order='in_out'):
         return (b.out_nodes[r[1]], 0)
 
     fork_names = itertools.count()
+    def fk(sig, primary=True):
+        return sig if (shared and primary and sig[0] in 'ig') else f'{sig}_f{next(fork_names)}'
     for sig in nl.signals():
         rs = readers.get(sig, [])
         if not rs:
@@ -211,8 +217,8 @@ def build(nl, style=STYLES[0], io_order='in_out'):
             lines.append(Line(c, drv(), reader_ep(rs[0])))
             continue
         if forks == 'chain_rev':
-            f2 = Node(c, f'{sig}_f{next(fork_names)}')      # downstream fork first (creation order matters for name-keyed maps)
-            f = Node(c, f'{sig}_f{next(fork_names)}')
+            f2 = Node(c, fk(sig, False))      # downstream fork first (creation order matters for name-keyed maps)
+            f = Node(c, fk(sig))
             lines.append(Line(c, f, f2))                     # the fork-to-fork line gets the lowest index
             lines.append(Line(c, drv(), f))
             if len(rs) > 1:
@@ -221,16 +227,16 @@ def build(nl, style=STYLES[0], io_order='in_out'):
             else:
                 lines.append(Line(c, f2, reader_ep(rs[0])))
             continue
-        f = Node(c, f'{sig}_f{next(fork_names)}')
+        f = Node(c, fk(sig))
         lines.append(Line(c, drv(), f))
         if forks == 'chain_first':
-            f2 = Node(c, f'{sig}_f{next(fork_names)}')
+            f2 = Node(c, fk(sig, False))
             lines.append(Line(c, f, f2))
             lines.append(Line(c, f2, reader_ep(rs[0])))
             for r in rs[1:]: lines.append(Line(c, f, reader_ep(r)))
             continue
         if forks == 'chain':
-            f2 = Node(c, f'{sig}_f{next(fork_names)}')
+            f2 = Node(c, fk(sig, False))
             if len(rs) > 1:   # first reader taps the first fork, the others the second
                 lines.append(Line(c, f, reader_ep(rs[0])))
                 lines.append(Line(c, f, f2))
